@@ -21,6 +21,9 @@ UNITS = {'voltage': 'V', 'current': 'A', 'power': 'W', 'potential': 'V'}
 
 
 def run(rep, prog, tier):
+    from .hidden import no_hidden_state
+    rep.rule('R14.state', 'no hidden state in the anchored modules: no function writes a module-level object, no caching decorator / cached property')
+    no_hidden_state(rep, 'R14.state', prog, ['SimpleCircuit/DiagramSolution.py', 'SimpleCircuit/Display.py', 'SimpleSimulation/schematic.py', 'SimpleSimulation/simulator.py', 'Utils.py'])
     rep.rule('R14.sign', 'the value handed to the formatter is (-1 if reverse else 1) * solution.get_Q(name) for voltage, current and power; potentials are unsigned')
     rep.rule('R14.pair', 'get_Q -> solution.get_Q with unit V / A / W / V (active power through print_active_power); display options forwarded from the adapter\'s own fields')
     rep.rule('R14.draw', 'draw_Q asks the solution for the same name and direction it labels; constructors forward w / precision / polar / deg; every declarative solution kind maps to a constructor accepting `schematic`')
@@ -70,6 +73,9 @@ def run(rep, prog, tier):
                 rep.ob('R14.pair', f'{cname}.get_{q}:{o}', kw.get(o) == wk, f'{o} = {_unkey(kw.get(o))!r:.80}', site)
     draw(rep, prog)
     constructors(rep, prog)
+    from .c18 import polar_rule
+    for key, ok, detail, site in polar_rule(prog):
+        rep.ob('R14.si', key, ok, detail, site)
     # SI tables
     for key, ok, detail, site in si_tables(prog):
         rep.ob('R14.si', key, ok, detail, site)
